@@ -215,6 +215,25 @@ Theorem catalog_centroid_shift : forall dy dx NY NX ny nx a b,
 Proof. exact catalog_centroid_embed. Qed.
 Print Assumptions catalog_centroid_shift.
 
+(* SourceCatalog.background_centroid (bilinear interpolation of the background at the centroid,
+   whose four neighbours lie inside the frame): unchanged by the embedding -- for the REPAIRED
+   coordinate order (fixes/C03-1-background-centroid-xy-order.patch) *)
+Theorem background_at_centroid_shift : forall dy dx NY NX ny nx a y x fy fx s,
+  rect ny nx a -> (S y < ny)%nat -> (S x < nx)%nat ->
+  bilinear (embed 0 dy dx NY NX a) (dy + y) (dx + x) fy fx s = bilinear a y x fy fx s.
+Proof. exact bilinear_embed. Qed.
+Print Assumptions background_at_centroid_shift.
+
+(* the code before the repair sampled the background at (x, y): refuted by a concrete witness
+   (replayed on the implementation by harness/c03.py: signature
+   SourceCatalog:shift:background_centroid unchanged) *)
+Theorem background_at_centroid_head_refuted :
+  exists (a : img Z) (dy dx NY NX y x : nat) (fy fx s : Z),
+    rect 2 3 a /\ (S y < 2)%nat /\ (S x < 3)%nat /\
+    bilinear_head (embed 0 dy dx NY NX a) (dy + y) (dx + x) fy fx s <> bilinear_head a y x fy fx s.
+Proof. exact bilinear_head_not_covariant. Qed.
+Print Assumptions background_at_centroid_head_refuted.
+
 (* ================================================================== *)
 (* (A.5 / B) detect_sources (C04 model)                                 *)
 (* ================================================================== *)
